@@ -1,5 +1,7 @@
 package capnp
 
+import "context"
+
 // C16: deep copy. Small concrete shapes built with the builder API, symbolic contents; destinations
 // in a second message with single- or multi-segment arenas.
 
@@ -310,4 +312,48 @@ func VH_C16_setstruct_skew() {
 		q, err := other.Ptr(0)
 		vAssert(err == nil && len(q.Data()) == 3, "C16.setstruct.neighbour-pointer-untouched")
 	}
+}
+
+// a copied capability pointer holds its own reference: releasing the source message leaves the
+// capability alive and callable through the copy; releasing the copy's message too shuts it down
+// exactly once. The source entry is a plain client or a promised client that was fulfilled and has
+// not been touched since.
+func VH_C16_copy_capability_refs() {
+	th := &vHook{}
+	target := NewClient(th)
+	var entry *Client
+	promised := vConc(int(vNondetU8()), 2) == 1
+	if promised {
+		c, cp := NewPromisedClient(&vHook{})
+		cp.Fulfill(target)
+		target.Release() // the resolved promise now holds the only reference
+		entry = c
+	} else {
+		entry = target
+	}
+	ma, sa := vNewMsg()
+	src, err := NewRootStruct(sa, ObjectSize{PointerCount: 1})
+	vAssume(err == nil)
+	vAssume(src.SetPtr(0, NewInterface(sa, ma.AddCap(entry)).ToPtr()) == nil)
+	mb, _ := vNewMsg()
+	err = mb.SetRoot(src.ToPtr())
+	vReach("copied")
+	vAssert(err == nil && len(mb.CapTable) == 1, "C16.capref.copied")
+	if err != nil || len(mb.CapTable) != 1 {
+		return
+	}
+	vAssert(th.shutdowns == 0, "C16.capref.alive-after-copy")
+	ma.Reset(nil) // the source message goes away
+	vAssert(th.shutdowns == 0, "C16.capref.copy-holds-its-own-reference")
+	rp, err := mb.Root()
+	vAssume(err == nil)
+	p, err := rp.Struct().Ptr(0)
+	vAssume(err == nil)
+	_, rel := p.Interface().Client().SendCall(context.Background(), Send{})
+	rel()
+	vAssert(th.sends == 1, "C16.capref.copy-reaches-the-capability")
+	mb.Reset(nil)
+	vReach("released")
+	vAssert(th.shutdowns == 1, "C16.capref.shut-down-exactly-once-when-both-are-gone")
+	vAssert(vLocksHeld() == 0, "C16.capref.no-lock-held")
 }
